@@ -321,12 +321,15 @@ static Fd *need(int fd, const char *call, bool quiet_unknown = false)
 
 int simk_setsockopt(int fd, int level, int optname, const void *optval, socklen_t optlen)
 {
-	(void)level; (void)optname; (void)optval; (void)optlen;
 	Fd *f = need(fd, "setsockopt");
 	if (!f) return -1;
 	int e = fault("setsockopt");
 	if (e) { errno = e; return -1; }
 	if (f->kind != K_SOCK && f->kind != K_LISTEN && f->kind != K_CONN) { K().hyg("setsockopt on non-socket " + fdname(fd)); errno = ENOTSOCK; return -1; }
+	if (level == SOL_SOCKET && optname == SO_LINGER && optval && optlen >= (socklen_t)sizeof(struct linger)) {
+		const struct linger *l = (const struct linger *)optval;
+		f->linger = l->l_onoff != 0 && l->l_linger > 0;
+	}
 	return 0;
 }
 
@@ -423,7 +426,7 @@ int simk_accept(int fd, struct sockaddr *addr, socklen_t *len)
 	Fd lcopy = *f; // newfd may reallocate
 	int nfd = newfd(K_CONN);
 	Fd &n = k.fds[nfd];
-	n.conn = id; n.family = lcopy.family; n.port = lcopy.port; n.ep = lcopy.ep;
+	n.conn = id; n.family = lcopy.family; n.port = lcopy.port; n.ep = lcopy.ep; n.linger = lcopy.linger; // (accepted sockets inherit the option)
 	k.conns[id].fd = nfd; k.conns[id].accepted = true;
 	fill_peer_addr(lcopy, k.conns[id].origin, addr, len);
 	return nfd;
@@ -447,7 +450,13 @@ int simk_close(int fd)
 	if (!f) { k.hyg("close of descriptor never issued: " + fdname(fd)); errno = EBADF; return -1; }
 	if (!f->open) { k.hyg("double close of " + fdname(fd)); errno = EBADF; return -1; }
 	f->open = false; f->registered = false; f->in_ready = false;
-	if (f->kind == K_CONN) { Conn &c = k.conns[f->conn]; c.daemon_closed = true; c.out_at_close = c.out.size(); }
+	if (f->kind == K_CONN) {
+		Conn &c = k.conns[f->conn];
+		// a lingering close waits (up to its timeout) until the peer has taken what is queued: with a peer that does not read, the
+		// single-threaded event loop stands still for that long
+		if (f->linger && c.blocked && c.end_kind == END_NONE) k.hyg("close() of " + fdname(fd) + " with SO_LINGER set while its peer does not read: the event loop blocks");
+		c.daemon_closed = true; c.out_at_close = c.out.size();
+	}
 	if (f->kind == K_LISTEN) { for (int id : f->backlog) { k.conns[id].daemon_closed = true; k.conns[id].aborted_in_accept = true; } f->backlog.clear(); }
 	if (f->kind == K_FILE) k.snap("close");
 	return 0;
